@@ -340,6 +340,24 @@ def proofCont (s : St) (p : Nat) (pst : PeerState) (req : ProveRequest) (m : Pro
             return ⟨s, .ban c, []⟩
           proofTd s p pst req m now boundary samples boundaryG samplesG reorg sampled lastNCount tauFailed
 
+/-- the TAU start index is `reorg` or, when `reorg` is before the end index, `reorg + 1` -/
+theorem tauStartIdx_cases (headers : List VH) (reorg endIdx : Nat) :
+    tauStartIdx headers reorg endIdx = reorg ∨
+      (reorg < endIdx ∧ tauStartIdx headers reorg endIdx = reorg + 1) := by
+  unfold tauStartIdx
+  split
+  · split
+    · rename_i hc
+      simp only [Bool.and_eq_true, decide_eq_true_eq] at hc
+      exact .inr ⟨hc.2, rfl⟩
+    · exact .inl rfl
+  · exact .inl rfl
+
+/-- the TAU start index stays inside `[reorg, max reorg endIdx]` -/
+theorem tauStartIdx_lt {headers : List VH} {reorg endIdx n : Nat} (hr : reorg < n)
+    (he : endIdx < n) : tauStartIdx headers reorg endIdx < n := by
+  rcases tauStartIdx_cases headers reorg endIdx with h | ⟨h1, h⟩ <;> omega
+
 def proofChecks (s : St) (p : Nat) (pst : PeerState) (req : ProveRequest) (m : ProofMsg) (now : Nat)
     (boundary : Nat) (samples : List Nat) (boundaryG : Nat) (samplesG : List Nat)
     (reorg sampled lastNCount : Nat) : M Out := do
@@ -348,7 +366,8 @@ def proofChecks (s : St) (p : Nat) (pst : PeerState) (req : ProveRequest) (m : P
           -- tau
           let tauFailed ← (if req.skipTau then pure false
             else if sampled ≠ 0 then
-              match m.headers[reorg]?, m.headers[reorg + sampled + lastNCount - 1]? with
+              match m.headers[tauStartIdx m.headers reorg (reorg + sampled + lastNCount - 1)]?,
+                  m.headers[reorg + sampled + lastNCount - 1]? with
               | some sh, some eh =>
                 match verifyTau sh.epoch sh.compact eh.epoch eh.compact s.tau with
                 | .pass => pure false
@@ -357,7 +376,8 @@ def proofChecks (s : St) (p : Nat) (pst : PeerState) (req : ProveRequest) (m : P
               | _, _ => .error (.index 69)
             else pure false : M Bool)
           if !req.skipTau && sampled ≠ 0 then
-            match m.headers[reorg]?, m.headers[reorg + sampled + lastNCount - 1]? with
+            match m.headers[tauStartIdx m.headers reorg (reorg + sampled + lastNCount - 1)]?,
+                  m.headers[reorg + sampled + lastNCount - 1]? with
             | some sh, some eh =>
               if verifyTau sh.epoch sh.compact eh.epoch eh.compact s.tau = .invalidCompactTarget then
                 return ⟨s, .ban 433, []⟩
